@@ -1,0 +1,68 @@
+//go:build verif
+
+// Contracts for the verification machinery in /verif (govc). Comment-only.
+
+package animation
+
+//@ func alphaBlendNRGBA
+//@   property C09 C08
+//
+//@ lemma blendIsSpec(src color.NRGBA, dst color.NRGBA)
+//@   property C09
+//@   ensures alphaBlendNRGBA(src, dst) == specBlend(src, dst)
+//
+//@ lemma blendNoOverflow(src color.NRGBA, dst color.NRGBA, sc uint8, dc uint8)
+//@   property C09
+//@   requires src.A != 0 && src.A != 255 && dst.A != 0
+//@   split src.A
+//@   ensures specBlendNoOverflow(src, dst, sc, dc)
+//
+//@ lemma blendIdentities(src color.NRGBA, dst color.NRGBA)
+//@   property C09 C08
+//@   ensures src.A == 0 ==> alphaBlendNRGBA(src, dst) == dst
+//@   ensures src.A == 255 || (dst.A == 0 && src.A != 0) ==> alphaBlendNRGBA(src, dst) == src
+//
+//@ pure func coversCanvas(r image.Rectangle, w int, h int) bool = r.Min.X <= 0 && r.Min.Y <= 0 && r.Max.X >= w && r.Max.Y >= h
+//
+// A frame may be treated as a key frame (canvas cleared first) only when what
+// was on the canvas cannot show through: it is the first frame, or its own
+// rectangle covers the canvas and it overwrites (no blending, or no alpha), or
+// the canvas is transparent anyway because the previous frame was disposed to
+// background and either covered the canvas or started from a cleared canvas.
+//@ func (d *AnimDecoder) isKeyFrame
+//@   property C09 C05
+//@   requires d != nil && d.anim != nil && 0 <= idx && idx < len(d.anim.Frames)
+//@   requires d.anim.CanvasWidth > 0 && d.anim.CanvasHeight > 0
+//@   modifies nothing
+//@   ensures result ==> idx == 0 || \
+//@       (coversCanvas(d.anim.Frames[idx].Bounds(), d.anim.CanvasWidth, d.anim.CanvasHeight) && \
+//@          (!d.anim.Frames[idx].HasAlpha || d.anim.Frames[idx].Blend == BlendNone)) || \
+//@       (d.prevDispose == DisposeBackground && \
+//@          (coversCanvas(d.prevBounds, d.anim.CanvasWidth, d.anim.CanvasHeight) || d.prevFrameWasKeyframe))
+//@   ensures idx == 0 ==> result
+//
+//@ func (f *Frame) Bounds
+//@   property C09 C05
+//@   requires f != nil
+//
+//@ func clearCanvas
+//@   property C09 C05
+//@   requires canvas != nil
+//@   modifies canvas.Pix[:]
+//@   loop 0: invariant forall k int :: 0 <= k && k <= rangeindex ==> canvas.Pix[k] == 0
+//@   ensures forall k int :: 0 <= k && k < len(canvas.Pix) ==> canvas.Pix[k] == 0
+//
+//@ func (d *AnimDecoder) Reset
+//@   property C09
+//@   requires d != nil && d.currFrame != nil && d.prevFrameDisposed != nil
+//@   requires base(d.currFrame.Pix) != base(d.prevFrameDisposed.Pix)
+//@   modifies d, d.currFrame.Pix[:], d.prevFrameDisposed.Pix[:]
+//@   ensures d.pos == 0 && !d.prevFrameWasKeyframe && d.prevDispose == DisposeNone
+//@   ensures d.prevBounds.Min.X == 0 && d.prevBounds.Min.Y == 0 && d.prevBounds.Max.X == 0 && d.prevBounds.Max.Y == 0
+//@   ensures d.anim == old(d.anim) && d.currFrame == old(d.currFrame) && d.prevFrameDisposed == old(d.prevFrameDisposed)
+//@   ensures forall k int :: 0 <= k && k < len(d.currFrame.Pix) ==> d.currFrame.Pix[k] == 0
+//@   ensures forall k int :: 0 <= k && k < len(d.prevFrameDisposed.Pix) ==> d.prevFrameDisposed.Pix[k] == 0
+//
+//@ func (d *AnimDecoder) HasNext
+//@   property C09 C05
+//@   requires d != nil && d.anim != nil
